@@ -1,4 +1,5 @@
 -- root of the library: every model, proof and property file
 import SarpyModel.Props.C01
 import SarpyModel.Props.C07
+import SarpyModel.Props.C16
 import SarpyModel.Drivers
